@@ -85,7 +85,9 @@ class Acc:
 
 
 def run_inst_suite(prop, verdict, acc, name, module, constants, wjson, depth, seed, owns, preds, invariants=(), properties=(),
-                   profile='dev', timeout=1500, workers=8, extra_const=None, simulate=None):
+                   profile='dev', timeout=None, workers=8, extra_const=None, simulate=None):
+    if timeout is None:
+        timeout = 1500 if os.environ.get('VERIF_TIER_RUNNING', 'quick') == 'quick' else 5400
     c = dict(constants)
     c['Depth'] = depth
     if extra_const:
@@ -139,7 +141,7 @@ def check_C08(tier, seed):
     inv = ['OneSlave', 'MasterOnlyNeverSlave', 'SlaveOnlyInit', 'SlaveOnlyLate']
     props_ = ['Emitters', 'ClockOwner']
     owns = ['clk']
-    depth = {'A': 6, 'B': 5, 'S': 5, 'D': 4, 'E': 6} if tier == 'quick' else {'A': 8, 'B': 7, 'C': 7, 'S': 7, 'D': 6, 'E': 9}
+    depth = {'A': 6, 'B': 5, 'S': 5, 'D': 4, 'E': 6} if tier == 'quick' else {'A': 7, 'B': 6, 'C': 6, 'S': 6, 'D': 5, 'E': 8}
     build('release')
     for var, d in depth.items():
         consts, w = INST_VARIANTS[var]
@@ -215,11 +217,11 @@ def check_C05(tier, seed):
     owns = ['pst', 'ppi', 'gm', 'steps', 'tp', 'path', 'clk', 'snap.rm']
     base = dict(INST_CONST)
     q = tier == 'quick'
-    def consts(pcfg, cls, steps, gset, snd, prior, multi=False, so=(False,), rounds=1, so0=False, late=False):
+    def consts(pcfg, cls, steps, gset, snd, prior, multi=False, so=(False,), rounds=1, so0=False, late=False, sndports=(1,), latesecond=False):
         c = dict(base)
         c.update({'PCfg': ('<-', pcfg), 'ClsSet': tla_set(cls), 'StepSet': tla_set(steps), 'GSet': tla_set(gset), 'SndSet': tla_set(snd),
                   'PriorSet': tla_set(prior), 'Multi': multi, 'SoSet': tla_set(so), 'Rounds': rounds, 'SO0': so0,
-                  'LateSet': ('<-', 'Late_All' if late else 'Late_None')})
+                  'LateSet': ('<-', 'Late_All' if late else 'Late_None'), 'SndPorts': tla_set(sndports), 'LateSecond': latesecond})
         return c
     w2 = world([e2e(), e2e()])
     suites = []
@@ -230,6 +232,8 @@ def check_C05(tier, seed):
             ('multi', consts('PCfg_A', [248], [0, 1], [1, 7, 8], [3, 7], ['L'], multi=True), w2, 'dev'),
             ('second-round', consts('PCfg_A', [6, 248], [0, 1, 2], [0, 1, 7, 8], [3, 7], ['L', 'M'], rounds=2), w2, 'dev'),
             ('late-masters', consts('PCfg_A', [6, 248], [0, 1], [1, 7, 8], [3, 7], ['L', 'M'], rounds=2, late=True), w2, 'dev'),
+            # two ports of one foreign clock are two masters: the second one appears after the port is already slave of the first
+            ('same-clock-two-ports', consts('PCfg_A', [248], [0, 1], [1, 7], [3], ['L'], multi=True, rounds=2, sndports=(1, 2), latesecond=True), w2, 'dev'),
             ('three-ports', consts('PCfg_T', [248], [0, 1], [1, 8], [3, 7], ['L', 'M']), world([e2e(), e2e(), e2e()]), 'dev'),
         ]
     else:
@@ -241,6 +245,7 @@ def check_C05(tier, seed):
             ('multi', consts('PCfg_A', [6, 248], [0, 1, 2], [0, 1, 3, 7, 8], [3, 7], ['L', 'M'], multi=True), w2, 'dev'),
             ('second-round', consts('PCfg_A', [6, 248], [0, 1, 2, 254], [0, 1, 3, 7, 8], [3, 7], ['L', 'M'], rounds=2), w2, 'dev'),
             ('late-masters', consts('PCfg_A', [6, 248], [0, 1, 2], [0, 1, 3, 7, 8], [3, 7], ['L', 'M'], rounds=2, late=True), w2, 'dev'),
+            ('same-clock-two-ports', consts('PCfg_A', [6, 248], [0, 1, 2], [1, 7, 8], [3, 7], ['L'], multi=True, rounds=2, sndports=(1, 2), latesecond=True), w2, 'dev'),
             ('late-masters-multi', consts('PCfg_A', [248], [0, 1], [1, 7, 8], [3, 7], ['L'], multi=True, rounds=2, late=True), w2, 'dev'),
             ('late-three-ports', consts('PCfg_T', [248], [0, 1], [1, 8], [3, 7], ['L'], rounds=2, late=True), world([e2e(), e2e(), e2e()]), 'dev'),
             ('three-ports', consts('PCfg_T', [6, 248], [0, 1, 2], [0, 1, 7, 8], [3, 7], ['L', 'M']), world([e2e(), e2e(), e2e()]), 'dev'),
@@ -258,7 +263,7 @@ def check_C05(tier, seed):
         open(p, 'w').write(text[-5000:])
         v.add({'kind': 'tlc', 'key': 'tlc:laws', 'detail': 'a law of the data set comparison is false on the finite domain', 'replay': p})
     # Binding B: recorded random histories of the real instance validated against TraceInstance.tla
-    run_inst_traces('C05', v, acc, ['pst', 'ppi', 'gm', 'steps', 'tp', 'path', 'clk'], tier, seed, variants=('A', 'B', 'D'))
+    run_inst_traces('C05', v, acc, ['pst', 'ppi', 'gm', 'steps', 'tp', 'path', 'clk', 'snap.rm'], tier, seed, variants=('A', 'B', 'D', 'P'))
     # the same laws for ALL integer attribute values: Apalache on the very text of BmcaCompare (symbolic, no enumeration)
     apa_ok = run_apalache('C05', v, 'ApaBmca.tla', 5, 'a law of the data set comparison is false for some integer values')
     return finish('C05', tier, seed, 'model_checking', v, acc, t0,
@@ -312,10 +317,13 @@ def check_C06(tier, seed):
         d.update(kw)
         return d
     run_inst_suite('C06', v, acc, 'C06-two-masters', 'MCFm', c([2, 9]), w1, 8 if q else 10, seed, owns, ['C06'], invariants=inv)
-    run_inst_suite('C06', v, acc, 'C06-one-master-deep', 'MCFm', c([2]), w1, 9 if q else 13, seed, owns, ['C06'], invariants=inv)
+    run_inst_suite('C06', v, acc, 'C06-one-master-deep', 'MCFm', c([2]), w1, 9 if q else 12, seed, owns, ['C06'], invariants=inv, timeout=1500 if q else 4000)
     run_inst_suite('C06', v, acc, 'C06-steps-255', 'MCFm', c([2, 4]), w1, 7 if q else 9, seed, owns, ['C06'], invariants=inv)
     # the serial-number comparison has a second seam at 32767 -> 32768
     run_inst_suite('C06', v, acc, 'C06-mid-wrap', 'MCFm', c([2], Start2=32766), w1, 8 if q else 11, seed, owns, ['C06'], invariants=inv)
+    # announce (= BMCA) interval of half a second and of two seconds: the window is counted in announce intervals whatever their length
+    run_inst_suite('C06', v, acc, 'C06-half-second', 'MCFm', c([2, 9]), world([dict(e2e(), log_ann=-1)]), 7 if q else 9, seed, owns, ['C06'], invariants=inv)
+    run_inst_suite('C06', v, acc, 'C06-two-seconds', 'MCFm', c([2]), world([dict(e2e(), log_ann=1)]), 7 if q else 9, seed, owns, ['C06'], invariants=inv)
     # Announces of a sibling port of the own instance (same clock identity) never enter the list
     run_inst_suite('C06', v, acc, 'C06-sibling', 'MCFm', c([2], Sibling=True), w1, 7 if q else 9, seed, owns, ['C06'], invariants=inv)
     run_inst_suite('C06', v, acc, 'C06-three-masters-sim', 'MCFm', c([2, 3, 9]), w1, 70, seed, owns, ['C06'], invariants=inv,
@@ -464,6 +472,9 @@ def check_C14(tier, seed):
                    7 if q else 9, seed + 1, owns, ['C14'], invariants=inv, properties=props_)
     run_inst_suite('C14', v, acc, 'C14-slave', 'MCPort', port_consts(fam + ['pdfupB', 'sync', 'annP', 'bmca'], PCfg=('<-', 'PCfg_P'), Prefix=('<-', 'PrefixSlave'), MaxRep=1, NSync=1, TwoStepSet='{}'), wp,
                    6 if q else 8, seed + 2, owns, ['C14'], invariants=inv, properties=props_)
+    # responder side: every Pdelay_Req (with its correction field) is answered in every port state
+    run_inst_suite('C14', v, acc, 'C14-responder', 'MCPort', port_consts(['pdreq', 'ts', 'trcpt', 'tdreq'], PCfg=('<-', 'PCfg_P')), wp, 5 if q else 7, seed + 3,
+                   owns + ['out.PdelayResp', 'out.PdelayRespFup'], ['C14'], invariants=inv, properties=props_)
     if not q:
         run_inst_suite('C14', v, acc, 'C14-sim', 'MCPort', port_consts(fam + ['pdfupB', 'tann', 'tsync', 'trcpt', 'annP', 'bmca'], PCfg=('<-', 'PCfg_P'), NPd=4), wp,
                        60, seed, owns, ['C14'], invariants=inv, properties=props_, simulate=(200, 40))
@@ -488,12 +499,15 @@ def check_C11(tier, seed):
                    5 if q else 7, seed, owns, ['C11'], invariants=inv, properties=props_)
     run_inst_suite('C11', v, acc, 'C11-from-start', 'MCPort', port_consts(fam, PCfg=('<-', 'PCfg_A'), AnnVar='{2, 4}'), w2,
                    6 if q else 8, seed + 1, owns, ['C11'], invariants=inv, properties=props_)
+    # own priority1 and priority2 differ: what the instance advertises as grandmaster (from the start, and after taking over)
+    run_inst_suite('C11', v, acc, 'C11-own-priorities', 'MCPort', port_consts(fam, PCfg=('<-', 'PCfg_A'), AnnVar='{2}', OwnP=('<-', 'MC_OwnP2')), world([e2e(), e2e()], own={'p2': 120}),
+                   6 if q else 8, seed + 2, owns, ['C11'], invariants=inv, properties=props_)
     w3 = world([e2e(), e2e(), e2e()])
     if not q:
         run_inst_suite('C11', v, acc, 'C11-sim', 'MCPort', port_consts(fam + ['so'], PCfg=('<-', 'PCfg_A'), AnnVar='{1, 2, 3, 4}'), w2,
                        50, seed, owns, ['C11'], invariants=inv, properties=props_, simulate=(300, 40))
     # Binding B: recorded random histories of the real instance validated against TraceInstance.tla
-    run_inst_traces('C11', v, acc, ['out.Announce', 'gm', 'steps', 'tp', 'ppi'], tier, seed, variants=('A', 'B'))
+    run_inst_traces('C11', v, acc, ['out.Announce', 'gm', 'steps', 'tp', 'ppi'], tier, seed, variants=('A', 'B', 'P'))
     return finish('C11', tier, seed, 'model_checking', v, acc, t0, EDGE_RULE,
                   COMMON_ASSUME + ['parent Announce contents range over four variants (grandmaster record, stepsRemoved 0/1/254, every leap/traceable flag, '
                                    'utc offset valid/invalid/negative, three time sources); the byte-level field mapping is checked through the independent decoder'])
@@ -583,13 +597,16 @@ def check_C12(tier, seed):
     # liveness on the continuation model (finite: sequence ids and ghost bookkeeping dropped), no state constraint
     live = dict(base)
     live.update({'SeqMod': 1, 'Ghost': False, 'Emitting': False, 'Depth': 0, 'FreeBudget': 6 if q else 0})
-    for name, pcfg, budget in ([('C12-live-e2e', 'PCfg_E', 6)] if q else [('C12-live-e2e', 'PCfg_E', 0), ('C12-live-two-ports', 'PCfg_B', 7), ('C12-live-p2p-port', 'PCfg_P', 9)]):
+    for name, pcfg, budget in ([('C12-live-e2e', 'PCfg_E', 6)] if q else [('C12-live-e2e', 'PCfg_E', 0), ('C12-live-two-ports', 'PCfg_B', 5), ('C12-live-p2p-port', 'PCfg_P', 8)]):
         cc = dict(live)
         cc['PCfg'] = ('<-', pcfg)
         cc['FreeBudget'] = budget
         cfg = os.path.join(outdir('cfg'), name + '.cfg')
-        write_cfg(cfg, spec='LiveSpec', constants=cc, invariants=['NoOrphanWait'], properties=['LiveSilence', 'LiveSilenceSlaveOnly', 'LiveSteady'], action_constraint='Norm')
-        stats, text = run_tlc('MCHost.tla', cfg, name, workers=8, timeout=3000)
+        if pcfg == 'PCfg_P':
+            cc['WithPd'] = True      # peer delay exchanges with one or two responders are part of the P2P port's environment
+        write_cfg(cfg, spec='LiveSpec', constants=cc, invariants=['NoOrphanWaitButKnown' if pcfg == 'PCfg_P' else 'NoOrphanWait'],
+                  properties=['LiveSilence', 'LiveSilenceSlaveOnly', 'LiveSteady'], action_constraint='Norm')
+        stats, text = run_tlc('MCHost.tla', cfg, name, workers=8, timeout=6000)
         if stats['errors'] and not stats['violated']:
             raise ToolError('TLC error in %s: %s' % (name, stats['errors'][:2]))
         acc.add(name, stats)
@@ -604,7 +621,7 @@ def check_C12(tier, seed):
     for item in hs.get('violations', []):
         v.add({'kind': 'predicate', 'key': 'C12/hostsim' + ('-orphan-recovered' if item.get('known') else ''), 'detail': item['detail'], 'replay': item['replay']})
     # Binding B: recorded random histories of the real instance validated against TraceInstance.tla
-    run_inst_traces('C12', v, acc, ['out.T', 'pend', 'out.len'], tier, seed, variants=('A', 'D'))
+    run_inst_traces('C12', v, acc, ['out.T', 'pend', 'out.len', 'snap.rm'], tier, seed, variants=('A', 'D'))
     return finish('C12', tier, seed, 'model_checking', v, acc, t0,
                   EDGE_RULE + '; plus virtual-time continuations of random real histories with (a) silence and (b) a steady better master',
                   COMMON_ASSUME + ['the host arms exactly the timers the returned actions request and a timer fires only while armed (statime-linux main.rs)',
@@ -639,7 +656,7 @@ def check_C15(tier, seed):
     run_inst_suite('C15', v, acc, 'C15-sizes-release', 'MCFwd', c('PCfg_2', [2, 3, 5, 8], [0]), w2, 4 if q else 5, seed, owns, ['C15', 'C03'], invariants=invb, properties=props_, profile='release')
     run_inst_suite('C15', v, acc, 'C15-fitting', 'MCFwd', c('PCfg_2', [1, 2, 3, 4, 6, 7, 8, 9], [0]), w2, 4 if q else 5, seed, owns, ['C15', 'C03'], invariants=inv, properties=props_)
     run_inst_suite('C15', v, acc, 'C15-several', 'MCFwd', c('PCfg_2', [1, 6, 11], [0]), w2, 5 if q else 7, seed, owns, ['C15', 'C03'], invariants=inv, properties=props_)
-    run_inst_suite('C15', v, acc, 'C15-path-trace', 'MCFwd', c('PCfg_2', [0, 1, 3, 5], [1, 2, 3, 4, 5], PTrace=True), w2p, 4 if q else 5, seed, owns, ['C15', 'C03'],
+    run_inst_suite('C15', v, acc, 'C15-path-trace', 'MCFwd', c('PCfg_2', [0, 1, 3, 5], [1, 2, 3, 4, 5, 6], PTrace=True), w2p, 4 if q else 5, seed, owns, ['C15', 'C03'],
                    invariants=invb, properties=props_)
     run_inst_suite('C15', v, acc, 'C15-path-as-tlv', 'MCFwd', c('PCfg_2', [0, 1], [0, 1, 3, 5]), w2, 4 if q else 5, seed, owns, ['C15', 'C03'], invariants=invb, properties=props_)
     run_inst_suite('C15', v, acc, 'C15-two-masters', 'MCFwd', c('PCfg_3', [1, 3, 8, 11], [0]), w3, 4 if q else 6, seed, owns, ['C15', 'C03'], invariants=inv, properties=props_)
@@ -693,6 +710,10 @@ def check_C03(tier, seed):
         d.update({'PCfg': ('<-', 'PCfg_2'), 'ListSet': tla_set(lists), 'PathSet': tla_set(paths)})
         d.update(kw)
         return d
+    # one master announcing nine times and more between two BMCA runs (a record holds eight messages)
+    fmc = dict(INST_CONST)
+    fmc.update({'PCfg': ('<-', 'PCfg_E'), 'StepsOf255': 255, 'Start2': 65534, 'Sibling': False, 'Masters': tla_set([2])})
+    run_inst_suite('C03', v, acc, 'C03-many-announces', 'MCFm', fmc, world([e2e()]), 10 if q else 12, seed, owns, ['C03'])
     run_inst_suite('C03', v, acc, 'C03-fwd-sizes', 'MCFwd', fc([1, 2, 3, 4, 5, 6, 7, 8, 9], [0]), world([e2e(), e2e()], fwd=True), 4 if q else 5, seed, owns, ['C03'])
     run_inst_suite('C03', v, acc, 'C03-fwd-sizes-path', 'MCFwd', fc([0, 1, 2, 3, 4, 5, 8], [1, 2, 3], PTrace=True), w2, 4 if q else 5, seed, owns, ['C03'])
     # randomised call orders with boundary values, mutated and random frames up to 2048 octets, six port configurations
@@ -1120,6 +1141,9 @@ def check_C19(tier, seed):
         ('C19-boundary', port_consts(['annP', 'annO', 'bmca', 'trcpt', 'q', 'so'], PCfg=('<-', 'PCfg_A'), AnnVar='{1, 2, 3, 4}', Depth=5 if q else 6), world([e2e(), e2e()])),
         ('C19-path-trace', port_consts(['x_ann', 'annP', 'bmca', 'trcpt'], PCfg=('<-', 'PCfg_A'), PTrace=True, Prefix=('<-', 'PrefixSlave'), Depth=3 if q else 4), world([e2e(), e2e()], ptrace=True)),
         ('C19-p2p', port_consts(['tdreq', 'ts', 'pd', 'trcpt', 'annP', 'bmca'], PCfg=('<-', 'PCfg_AP'), MaxRep=1, Depth=6 if q else 7), world(asym([e2e(), p2p()]))),
+        # the port the exchanges run on is the peer-to-peer one: measured link delays in every port state; two P2P ports: one sample per port
+        ('C19-p2p-first', port_consts(['tdreq', 'ts', 'pd', 'trcpt', 'annP', 'bmca'], PCfg=('<-', 'PCfg_PA'), MaxRep=1, Depth=6 if q else 7), world(asym([p2p(), e2e()]))),
+        ('C19-p2p-both', port_consts(['tdreq', 'ts', 'pd', 'trcpt'], PCfg=('<-', 'PCfg_PP'), MaxRep=1, Depth=5 if q else 6), world(asym([p2p(), p2p()]))),
     ]
     ests = [(0, 0), (1 << 32, 1), (-(1 << 32), 3 << 30), (999_000 << 32, 400_000 << 32), (-(1_001_000 << 32) - 12345, (123 << 32) + 999),
             ((10_000_000_000 << 32) + 0xfffffff, (10_000_000_000 << 32) - 1), (-(10_000_000_000 << 32) - 1, 5), (-(7_123_456_789 << 32), (9_999_999_999 << 32) + 77)]
@@ -1201,9 +1225,11 @@ def check_C19(tier, seed):
                 for i, isp2p in enumerate(exp['p2p']):
                     got = get('statime_mean_link_delay_nanoseconds', port=str(i + 1))
                     if isp2p:
-                        md = d['live']['md'][i]
+                        # the live value is the port's own mean delay (hook snapshot, 2^-32 ns), not what the getter under test reports
+                        smd = d['live']['snap'][i]['md']
+                        md = (int(smd) >> 16) if smd is not None else 0
                         checked_values += 1
-                        if len(got) != 1 or md is None or abs(float(got[0]) - int(md) / 65536.0) > 1e-6:
+                        if len(got) != 1 or abs(float(got[0]) - md / 65536.0) > 1e-6:
                             problems.append('mean link delay of port %d = %s, the port has %s (2^-16 ns)' % (i + 1, got, md))
                     elif got:
                         problems.append('mean link delay exported for E2E port %d' % (i + 1))
@@ -1238,6 +1264,7 @@ INST_TRACE_VARIANTS = {
     'B': {'PCfg': ('<-', 'TI_PCfg_B'), 'PTrace': True},      # path trace on, port 2 master-only
     'D': {'PCfg': ('<-', 'TI_PCfg_D'), 'PTrace': False},     # acceptable master list on port 1, P2P port 2, master-only port 3
     'M': {'PCfg': ('<-', 'TI_PCfg_A'), 'PTrace': False},     # as A, Announces from fourteen distinct sources (the list holds eight)
+    'P': {'PCfg': ('<-', 'TI_PCfg_A'), 'PTrace': False, 'OwnP': ('<-', 'TI_OwnP_P')},   # as A, own priority1 and priority2 differ
     'F': {'PCfg': ('<-', 'TI_PCfg_A'), 'PTrace': True, 'Fwd': True},   # boundary clock: path trace and the real TlvForwarder between the ports
 }
 INST_TRACE_INVARIANTS = ['OneSlave', 'MasterOnlyNeverSlave', 'ParentQualified']
@@ -1537,6 +1564,8 @@ NETS = {
     'parallel-restore': NET(2, 'Topo_Par', 'Prio_12', 'Cls_2', 'So_2', 'NP_22', [NET_NODE(100, nports=2), NET_NODE(200, nports=2)], [[[1, 1], [2, 1]], [[1, 2], [2, 2]]],
                             cut0='Cut_Par', wcut0=[1]),
     'multi': NET(2, 'Topo_Multi', 'Prio_12', 'Cls_2', 'So_2', 'NP_21', [NET_NODE(100, nports=2), NET_NODE(200)], [[[1, 1], [1, 2], [2, 1]]]),
+    # the instance with two ports on the segment is the worse one: one port slave, the other passive by topology (no multiport disabling involved)
+    'multi-rev': NET(2, 'Topo_Multi', 'Prio_21', 'Cls_2', 'So_2', 'NP_21', [NET_NODE(200, nports=2), NET_NODE(100)], [[[1, 1], [1, 2], [2, 1]]]),
     'chain3': NET(3, 'Topo_Chain3', 'Prio_321', 'Cls_3', 'So_3', 'NP_121', [NET_NODE(200), NET_NODE(150, nports=2), NET_NODE(100)], [[[1, 1], [2, 1]], [[2, 2], [3, 1]]]),
     # priority2 decides and the relay in the middle has the worst one
     'chain3-p2': NET(3, 'Topo_Chain3', 'Prio_Eq3', 'Cls_3', 'So_3', 'NP_121', [NET_NODE(128, p2=100), NET_NODE(128, nports=2, p2=128), NET_NODE(128, p2=110)],
@@ -1642,7 +1671,7 @@ def check_C01(tier, seed):
     # (2) Binding A: every edge of the two-node link graph, and simulated behaviours of three- and four-node networks, on real instances
     # simulated behaviours: the fault is forced as soon as the network has been quiet for K rounds (every behaviour has its fault and its
     # re-convergence); K for three and four nodes is empirical (150 forced-fault behaviours per topology hold with 14)
-    KSIM = {2: KS, 3: 16, 4: 20}
+    KSIM = {2: 12, 3: 16, 4: 20}
     def replay_net(name, consts, simulate=None, invariants=('Settle',)):
         cfgp = os.path.join(outdir('cfg'), name + '.cfg')
         write_cfg(cfgp, constants=consts, invariants=list(invariants), view='View', constraint='Bound', action_constraint='Emit')
@@ -1666,6 +1695,9 @@ def check_C01(tier, seed):
         replay_net('C01-r-parallel', net_consts('parallel', KS, keep=True, depth=40))
     for name in (['chain3', 'shared3', 'chain3-p2'] if q else ['chain3', 'star3', 'ring3', 'shared3', 'chain4', 'ring4', 'chain3-p2']):
         replay_net('C01-r-' + name, net_consts(name, KSIM[NETS[name]['n']], 'AllFaults', keep=True, depth=900, force=True), simulate=(4 if q else 60, 800))
+    # two ports of the WORSE instance on one segment: one slave, one passive by topology. (Silencing the better node would turn this into the
+    # recorded multiport finding - the instance then wants to be master on both ports - so the fault here is a quality change.)
+    replay_net('C01-r-multi-rev', net_consts('multi-rev', KSIM[2], 'QualityFaults', keep=True, depth=600, force=True), simulate=(4 if q else 60, 500))
     # a link that comes up after the network has converged without it (a slave port has to turn passive)
     for name in (['ring3-restore'] if q else ['ring3-restore', 'parallel-restore']):
         replay_net('C01-r-' + name, net_consts(name, KSIM[NETS[name]['n']], 'RestoreFaults', keep=True, depth=900, force=True), simulate=(4 if q else 60, 800))
